@@ -4,6 +4,8 @@ import os
 import signal
 from typing import List, Optional, Tuple  # pylint: disable=unused-import
 
+from conductor.errors.signal import raise_pending_abort
+
 
 class SigchldHelper:
     _Instance: "Optional[SigchldHelper]" = None
@@ -51,6 +53,7 @@ class SigchldHelper:
             # last drained). The Python-level handlers run once `read()`
             # returns; `_handler()` then collects the exited children.
             _ = os.read(self._read_pipe, 4096)
+            raise_pending_abort()
         return self._extract_any()
 
     def _add_returncode(self, pid: int, returncode: int) -> None:
